@@ -69,8 +69,9 @@ quoted_opt = dict(scan_opt, escape=None)
 def attribute_name(scanner: Scanner):
     "Consumes attribute name from given scanner context"
     start = scanner.pos
-    if scanner.eat(Chars.Asterisk) or scanner.eat(Chars.Hash):
-        # Angular-style directives: `<section *ngIf="showSection">`, `<video #movieplayer ...>`
+    if scanner.eat(Chars.Asterisk) or scanner.eat(Chars.Hash) or scanner.eat(Chars.At):
+        # Angular-style directives: `<section *ngIf="showSection">`, `<video #movieplayer ...>`,
+        # Vue-style event shorthand: `<button @click="submit">`
         ident(scanner)
         scanner.start = start
         return True
